@@ -152,6 +152,7 @@ theorem runFx_noFail (a : Actor) (f : Fx) : (∀ e ∈ evs (runFx a f).2, isFail
   | joinGroup g => exact ⟨by simp [runFx, isFail], by simp only [runFx]; split <;> rfl⟩
   | reply k v => simp only [runFx]; split <;> exact ⟨by simp [isFail], rfl⟩
   | forget k => simp only [runFx]; split <;> exact ⟨by simp [isFail], rfl⟩
+  | spawnChild c => exact ⟨by simp [runFx, isFail], rfl⟩
 
 theorem runFxs_noFail (fs : List Fx) (a : Actor) :
     (∀ e ∈ evs (runFxs a fs).2, isFail e = false) ∧ (runFxs a fs).1.phase = a.phase := by
@@ -380,6 +381,7 @@ theorem runFx_pre (a : Actor) (f : Fx) (hcf : CallsFresh a) :
       obtain ⟨p, hp, hh⟩ := fateOf_mem h
       rcases hcf p hp with h' | h' <;> rw [h'] at hh <;> cases hh
     · exact ⟨rfl, hcf⟩
+  | spawnChild c => exact ⟨rfl, hcf⟩
 
 theorem runFxs_pre (fs : List Fx) (a : Actor) (hcf : CallsFresh a) :
     (runFxs a fs).1.armed = a.armed ∧ CallsFresh (runFxs a fs).1 := by
